@@ -14,7 +14,12 @@ use std::time::Duration;
 use hcommon::problems::{OneMax, Sphere, Tsp};
 use hcommon::templates::*;
 use hcommon::*;
-use mahf::components::{initialization, mutation, recombination, replacement, selection};
+use mahf::components::{boundary, initialization, mapping, mutation, recombination, replacement, selection};
+use mahf::components::diversity::{
+    DimensionWiseDiversity, DistanceToAveragePointDiversity, Diversity, DiversityMeasure, NormalizedDiversityLens, PairwiseDistanceDiversity, TrueDiversity,
+};
+use mahf::components::mutation::{MutationStrength, NormalMutation};
+use mahf::components::utils::improvement::{StepsWithoutImprovement, StepsWithoutImprovementUpdate};
 use mahf::conditions::{EveryN, LessThanN};
 use mahf::heuristics::*;
 use mahf::lens::common::{BestObjectiveValueLens, PopulationSizeLens, ValueOf};
@@ -617,6 +622,14 @@ fn all_runs<P: HP>(config: &Configuration<J<P>>, inner: &P, cx: &Ctx) -> Vec<Str
         let d = pool.install(|| run_digest(cfg, &jp, cx.seed, true, Gen::Seeded, &enc));
         out.push(list([format!("par{n}"), d]));
     }
+    // the SEQUENTIAL evaluator inside pools of 2, 3, 8 threads (original / cloned configuration): whatever a
+    // component does with the ambient rayon pool on its own, the evaluator plays no part in it
+    for (k, (n, pool)) in cx.pools.iter().enumerate() {
+        if ![2usize, 3, 8].contains(n) { continue; }
+        let cfg = if k % 2 == 0 { &cloned } else { config };
+        let d = pool.install(|| run_digest(cfg, &plain, cx.seed, false, Gen::Seeded, &enc));
+        out.push(list([format!("seq-in-pool{n}"), d]));
+    }
     // once more under the 4-thread pool with other delays, and sequential evaluation with delays
     let jp = J::new(inner.clone(), Some(cx.jseed ^ 0xabcdef));
     let d = cx.pools[3].1.install(|| run_digest(config, &jp, cx.seed, true, Gen::Seeded, &enc));
@@ -772,6 +785,141 @@ fn gen_config(spec: &[Sx]) -> Configuration<JS> {
         .build()
 }
 
+
+// measure components (diversity, improvement) --------------------------------------------------------
+const MEASURES: [&str; 4] = ["DimensionWiseDiversity", "PairwiseDistanceDiversity", "TrueDiversity", "DistanceToAveragePointDiversity"];
+fn measure_index(name: &str) -> usize { MEASURES.iter().position(|m| *m == name).unwrap_or_else(|| panic!("unknown measure {name}")) }
+
+/// `MahfModel.DeterminismMeasure.prepCoord`: coordinate `k` of solution `i` — sevenths, so that nearly every
+/// value has a full mantissa and sums round differently under different association.
+fn prep_coord(seed: u64, i: u64, k: u64) -> f64 { ((seed + 31 * i + 17 * k + 7 * i * k) % 1009) as f64 / 7.0 - 70.0 }
+fn prep_solutions(n: u64, d: u64, seed: u64) -> Vec<Vec<f64>> { (0..n).map(|i| (0..d).map(|k| prep_coord(seed, i, k)).collect()).collect() }
+
+/// The public `DiversityMeasure::measure` on prepared solutions → bits of the value.
+fn measure_direct(m: usize, d: u64, sols: &[Vec<f64>]) -> String {
+    let problem = Sphere::new(d as usize, -100.0, 100.0, 0.0);
+    let refs: Vec<&Vec<f64>> = sols.iter().collect();
+    match catch(|| match m {
+        0 => DimensionWiseDiversity::from_params().measure(&problem, &refs),
+        1 => PairwiseDistanceDiversity::from_params().measure(&problem, &refs),
+        2 => TrueDiversity::from_params().measure(&problem, &refs),
+        _ => DistanceToAveragePointDiversity::from_params().measure(&problem, &refs),
+    }) { Some(v) => fx(v), None => "panic".into() }
+}
+/// The measure as a component: `Configuration::run` on a hand-built state whose current population are the
+/// prepared solutions → bits of `Diversity<M>::max_diversity` (= the measured value of the single execution)
+/// and of the normalised value.
+fn measure_component(m: usize, d: u64, sols: &[Vec<f64>]) -> String {
+    type S = Sphere;
+    let problem = Sphere::new(d as usize, -100.0, 100.0, 0.0);
+    fn go<M: mahf::component::AnyComponent + 'static>(comp: Box<dyn mahf::Component<S>>, problem: &S, sols: &[Vec<f64>]) -> Option<String> {
+        let config = Configuration::<S>::builder().do_(comp).build();
+        let mut state: State<S> = State::new();
+        state.insert(mahf::logging::Log::new());
+        state.insert(mahf::state::common::Populations::<S>::new());
+        state.insert(Random::new(0));
+        state.insert_evaluator(Sequential::<S>::new());
+        state.populations_mut().push(sols.iter().map(|s| mahf::Individual::new_unevaluated(s.clone())).collect());
+        config.run(problem, &mut state).ok()?;
+        let dv = state.borrow::<Diversity<M>>();
+        Some(format!("{}/{}", fx(dv.max_diversity), fx(dv.diversity)))
+    }
+    match catch(|| match m {
+        0 => go::<DimensionWiseDiversity>(DimensionWiseDiversity::new(), &problem, sols),
+        1 => go::<PairwiseDistanceDiversity>(PairwiseDistanceDiversity::new(), &problem, sols),
+        2 => go::<TrueDiversity>(TrueDiversity::new(), &problem, sols),
+        _ => go::<DistanceToAveragePointDiversity>(DistanceToAveragePointDiversity::new(), &problem, sols),
+    }) { Some(Some(v)) => v, Some(None) => "err".into(), None => "panic".into() }
+}
+
+/// A generated configuration on J<Sphere> in which measured values are logged and steer the search:
+/// `(n iters mask fb map)` — `mask`: which of the four diversity measures run in the loop; `fb`: the measure
+/// whose normalised value is mapped (`map` 0 = `mapping::Linear`, 1 = `mapping::Polynomial`) onto the
+/// `MutationStrength` of the `NormalMutation` that follows (4 = no feedback); `StepsWithoutImprovementUpdate`
+/// runs in every pass.
+fn measure_config(n: u32, iters: u32, mask: u64, fb: u64, map: u64) -> Configuration<JS> {
+    type MS = MutationStrength<NormalMutation>;
+    Configuration::<JS>::builder()
+        .do_(initialization::RandomSpread::new(n))
+        .evaluate()
+        .update_best_individual()
+        .while_(LessThanN::iterations(iters), |b| {
+            let b = if mask & 1 != 0 { b.do_(DimensionWiseDiversity::new()) } else { b };
+            let b = if mask & 2 != 0 { b.do_(PairwiseDistanceDiversity::new()) } else { b };
+            let b = if mask & 4 != 0 { b.do_(TrueDiversity::new()) } else { b };
+            let b = if mask & 8 != 0 { b.do_(DistanceToAveragePointDiversity::new()) } else { b };
+            macro_rules! feed {
+                ($m:ty) => {
+                    if map == 0 { b.do_(mapping::Linear::new(0.05, 0.5, NormalizedDiversityLens::<$m>::new(), ValueOf::<MS>::new())) }
+                    else { b.do_(mapping::Polynomial::new(0.02, 0.8, 2.0, NormalizedDiversityLens::<$m>::new(), ValueOf::<MS>::new())) }
+                };
+            }
+            let b = match fb {
+                0 => feed!(DimensionWiseDiversity),
+                1 => feed!(PairwiseDistanceDiversity),
+                2 => feed!(TrueDiversity),
+                3 => feed!(DistanceToAveragePointDiversity),
+                _ => b,
+            };
+            b.do_(NormalMutation::new(0.1, 1.0))
+                .do_(boundary::Saturation::new())
+                .evaluate()
+                .update_best_individual()
+                .do_(StepsWithoutImprovementUpdate::new())
+                .do_(Logger::new())
+        })
+        .build()
+}
+/// One run of a measure configuration → digest of populations, best, counters, generator position, log
+/// (with the measured values, the steps without improvement and the mutation strength in every pass) and the
+/// final `Diversity<M>` states.
+fn measure_run_digest(config: &Configuration<JS>, problem: &JS, seed: u64, par: bool, mask: u64) -> String {
+    type MS = MutationStrength<NormalMutation>;
+    let r = catch(|| {
+        config.optimize_with(problem, |state: &mut State<JS>| {
+            state.insert(Random::new(seed));
+            if par { state.insert_evaluator(Parallel::<JS>::new()) } else { state.insert_evaluator(Sequential::<JS>::new()) }
+            log_setup(state)?;
+            state.configure_log(|c| {
+                if mask & 1 != 0 { c.with(EveryN::iterations(1), NormalizedDiversityLens::<DimensionWiseDiversity>::entry()); }
+                if mask & 2 != 0 { c.with(EveryN::iterations(1), NormalizedDiversityLens::<PairwiseDistanceDiversity>::entry()); }
+                if mask & 4 != 0 { c.with(EveryN::iterations(1), NormalizedDiversityLens::<TrueDiversity>::entry()); }
+                if mask & 8 != 0 { c.with(EveryN::iterations(1), NormalizedDiversityLens::<DistanceToAveragePointDiversity>::entry()); }
+                c.with(EveryN::iterations(1), ValueOf::<StepsWithoutImprovement>::entry());
+                c.with(EveryN::iterations(1), ValueOf::<MS>::entry());
+                Ok(())
+            })
+        })
+    });
+    match r {
+        None => "panic".into(),
+        Some(Err(_)) => "err".into(),
+        Some(Ok(state)) => {
+            let enc = |s: &Vec<f64>| Sphere::enc(s);
+            let mut s = state_string(&state, &enc);
+            macro_rules! dv { ($bit:expr, $m:ty) => { if mask & $bit != 0 { let d = state.borrow::<Diversity<$m>>(); s.push_str(&format!("|div:{}/{}", fx(d.diversity), fx(d.max_diversity))); } }; }
+            dv!(1, DimensionWiseDiversity); dv!(2, PairwiseDistanceDiversity); dv!(4, TrueDiversity); dv!(8, DistanceToAveragePointDiversity);
+            s.push_str(&format!("|swi:{:?}|strength:{:?}", state.try_get_value::<StepsWithoutImprovement>().ok(), state.try_get_value::<MS>().ok().map(fx)));
+            fnv(&s)
+        }
+    }
+}
+/// The runs of one measure configuration: reference = plain call from the main thread with the sequential
+/// evaluator; then under every pool the sequential AND the parallel evaluator, original / cloned configuration.
+fn measure_runs(config: &Configuration<JS>, inner: &Sphere, seed: u64, mask: u64, pools: &[(usize, rayon::ThreadPool)]) -> Vec<String> {
+    let plain = J::new(inner.clone(), None);
+    let mut out = vec![list(["seq".into(), measure_run_digest(config, &plain, seed, false, mask)])];
+    out.push(list(["seq-again".into(), measure_run_digest(config, &plain, seed, false, mask)]));
+    let cloned = config.clone();
+    for (k, (n, pool)) in pools.iter().enumerate() {
+        let cfg = if k % 2 == 0 { config } else { &cloned };
+        out.push(list([format!("seq-in-pool{n}"), pool.install(|| measure_run_digest(cfg, &plain, seed, false, mask))]));
+        let jp = J::new(inner.clone(), if k == 3 { Some(seed ^ 0x3e) } else { None });
+        out.push(list([format!("par{n}"), pool.install(|| measure_run_digest(cfg, &jp, seed, true, mask))]));
+    }
+    out
+}
+
 // par_experiment ------------------------------------------------------------------------------------
 fn canon_cbor(v: &ciborium::Value) -> String {
     use ciborium::Value as C;
@@ -908,6 +1056,25 @@ fn run_case(input: &Sx, pools: &[(usize, rayon::ThreadPool)]) -> String {
             let pr = eval_once(entry, nn, prep, seed, lo, len, Some(pool));
             list(["evaluate".into(), list(["seq".into(), sq]), list(["par".into(), pr])])
         }
+        "measure" => {
+            // (measure <Measure> n d seed): the public `measure` and the component on prepared solutions,
+            // called from the main thread and inside every pool
+            let m = measure_index(a[0].atom().unwrap());
+            let (nn, d, seed) = (n(1), n(2), n(3));
+            let sols = prep_solutions(nn, d, seed);
+            let mut ds = vec![list(["outside".into(), measure_direct(m, d, &sols)])];
+            for (t, pool) in pools { ds.push(list([format!("pool{t}"), pool.install(|| measure_direct(m, d, &sols))])); }
+            let mut cs = vec![list(["outside".into(), measure_component(m, d, &sols)])];
+            for (t, pool) in pools { cs.push(list([format!("pool{t}"), pool.install(|| measure_component(m, d, &sols))])); }
+            list(["measure".into(), tagged("digests", ds), tagged("digests", cs)])
+        }
+        "mrun" => {
+            // (mrun n iters mask fb map inst seed)
+            let (nn, iters, mask, fb, map, inst, seed) = (n(0) as u32, n(1) as u32, n(2) & 15, n(3), n(4), n(5) as u32, n(6));
+            let mask = if fb < 4 { mask | (1 << fb) } else { mask };
+            let config = measure_config(nn, iters, mask, fb, map);
+            tagged("digests", measure_runs(&config, &sphere_instance(inst), seed, mask, pools))
+        }
         "gen" => {
             let config = gen_config(&a[..7]);
             let inner = sphere_instance(n(6) as u32);
@@ -1032,6 +1199,7 @@ fn site_of(sx: &Sx) -> String {
         ("run", a) => format!("run-{}", a[0].atom().unwrap()),
         ("big", a) => format!("big-{}", a[0].atom().unwrap()),
         ("evaluate", a) => format!("evaluate-{}", a[0].atom().unwrap()),
+        ("measure", a) => format!("measure-{}", a[0].atom().unwrap()),
         (h, _) => h.to_string(),
     }
 }
@@ -1122,6 +1290,20 @@ fn main() {
     }
     for _ in 0..(if a.thorough { 40 } else { 3 }) {
         emit(format!("(gen {} {} {} {} {} {} {} {})", r.range(257, 1300), r.range(1, 2), r.below(4), r.below(3), r.below(3), r.below(3), r.below(N_INSTANCES as u64), r.below(1 << 20)));
+    }
+    // 2a'. measure components. (i) the four diversity measures called directly and as components on prepared
+    //      solutions (2..600 solutions, 1..12 dimensions), from the main thread and inside pools of 1..16 threads;
+    for (mi, m) in MEASURES.iter().enumerate() {
+        let mut shapes: Vec<(u64, u64)> = vec![(48, 6), (2, 1), (3 + mi as u64, 2)];
+        for _ in 0..(if a.thorough { 40 } else { 5 }) { shapes.push((r.range(2, if a.thorough { 600 } else { 200 }), r.range(1, 12))); }
+        for (nn, d) in shapes { emit(format!("(measure {m} {nn} {d} {})", r.below(1 << 20))); }
+    }
+    //      (ii) generated configurations in which the measured values are logged and steer the mutation strength
+    //      through a mapping; sequential and parallel evaluator inside every pool vs. the plain call
+    for i in 0..(if a.thorough { 160 } else { 16 }) {
+        let fb = if i % 5 == 4 { 4 } else { i % 4 };
+        let mask = if i % 3 == 0 { 15 } else { r.range(1, 15) };
+        emit(format!("(mrun {} {} {mask} {fb} {} {} {})", r.range(8, if a.thorough { 96 } else { 48 }), r.range(3, if a.thorough { 30 } else { 12 }), r.below(2), r.below(N_INSTANCES as u64), r.below(1 << 20)));
     }
     // 2b. one configuration object reused on problems with different domains; clone after use
     for name in TEMPLATES {
